@@ -28,7 +28,7 @@ def render(v, sort=True):
     k = v[0]
     if k in ("N", "Nil", "T", "F"):
         return k
-    if k in ("I", "U", "L", "X"):
+    if k in ("I", "U", "L", "X", "J"):
         return f"{k}{v[1]}"
     if k == "D":
         return "D%016x" % v[1]
@@ -95,7 +95,7 @@ def _parse(toks, pos):
         return (t,), pos
     if t == "#cycle":
         return ("cycle",), pos
-    if c in "IULX":
+    if c in "IULXJ":
         return (c, int(body)), pos
     if c == "D":
         return ("D", int(body, 16)), pos
